@@ -22,7 +22,7 @@ RULE = ("Hypothesis draws a program with a known live set at its end (K module-l
         "counts of List/Map/Tuple/Instance/Channel minus those of the same program with an empty live set and n=0 == "
         "the drawn live set; (5) metamorphic: every kind count, bytes_allocated and the harness allocator's live block "
         "count are equal for n, 2n and 4n; (6) the harness allocator saw zero dealloc layout mismatches during the run "
-        "and the drop of the vm; (7) no temporary root is left behind. Non-trivial: >= 1 nursery and >= 1 full "
+        "and the drop of the vm; (7) no temporary root is left behind; (8) with the collector off, bytes_allocated at the end of the run == sum of size() of everything ever allocated (no allocation path forgets to count). Non-trivial: >= 1 nursery and >= 1 full "
         "collection happened during the run and >= 100 objects were freed; distinct by program + schedule.")
 ASSUMPTIONS = ["the collector conservatively traces whole fiber stacks, so the program ends with a deep call that "
                "overwrites dead stack slots with nil before the statistics are taken",
@@ -218,6 +218,19 @@ def run_case(case, ctx):
                            "%d blocks were released with a layout other than the one they were allocated with; first "
                            "(alloc size, align, dealloc size, align): %s\n--- source\n%s" %
                            (r["alloc"]["mismatches"], r["alloc"]["samples"], src), {"source": src})
+    if fail is None:
+        # oracle 8: with the collector off every allocation ever made is still present, so the running byte count must
+        # equal the sum of their sizes (an allocation path that forgets to count shows here; after a collection the
+        # count is recomputed, which would hide it)
+        nv = w.run(src, mode=W.MODE_RUN_COLLECT, schedule=W.NEVER, lines=["%06d" % min(n, 300)])
+        runs += 1
+        nh = snapshot(nv, "after_run")
+        if nv.get("outcome") == "ok" and nh is not None and nh["bytes_allocated"] != nh["recomputed_bytes"]:
+            fail = Failure("%s/allocation-not-counted" % PROPERTY,
+                           "with the collector off the program ended with bytes_allocated=%d but the allocations present sum "
+                           "to %d (diff %d)\n--- source\n%s" % (nh["bytes_allocated"], nh["recomputed_bytes"],
+                                                              nh["bytes_allocated"] - nh["recomputed_bytes"], src),
+                           {"source": src, "heap": nh})
     if fail is None:
         # oracle 4: live set
         b = w.run(base_src, mode=W.MODE_RUN_COLLECT, schedule=sched, lines=["%06d" % 0])
